@@ -48,7 +48,7 @@ ValidAt(ww, D, A, loc, k) ==      \* loc: function spatial dim -> index; any non
   IN At(A, [p \in 1..Len(A.dims) |-> IF A.dims[p] = d THEN k ELSE IF A.dims[p] \in DOMAIN loc THEN loc[A.dims[p]] ELSE 0]) # MISSING
 
 Names == {"Completed", "DepthCoordinatesListed", "NormMatches", "InputUnmodified", "SignAsRequested", "OrderAsRequested", "BoundsFollow",
-          "PhysDepthPreserved", "UnsetUntouched",
+          "PhysDepthPreserved", "UnsetUntouched", "SavedAsHeld",
           "FloorValues", "DepthRemoved", "OthersUntouched", "GeometryUntouched"}
 
 Holds(name, ww, e) ==
@@ -105,6 +105,10 @@ Holds(name, ww, e) ==
     [] name = "UnsetUntouched" ->
          (Is(e, "Normalize") /\ e.pd = "none" /\ e.d2s = "none") =>
             (SameDepths(e.obs.ok.D.depths, cur.depths) /\ e.obs.ok.D.vars = cur.vars)
+    [] name = "SavedAsHeld" ->
+         \* the dataset as it stands, written with the EMS fixes and read back, holds the same depth coordinates (values,
+         \* attribute, bounds) and the same data
+         Is(e, "Save") => (SameDepths(e.obs.ok.D.depths, cur.depths) /\ e.obs.ok.D.vars = cur.vars)
     \* ---------------------------------------------------------------- C12
     [] name = "FloorValues" ->
          Is(e, "OceanFloor") =>
@@ -139,6 +143,7 @@ SeenOf(ww, e) ==
   \cup (IF \E k \in 1..Len(cur.depths) : cur.depths[k].positive = "" THEN {"attr-withheld"} ELSE {})
   \cup (IF \E k \in 1..Len(cur.depths) : Len(cur.depths[k].bounds) > 0 THEN {"with-bounds"} ELSE {})
   \cup (IF Len(cur.depths) > 1 THEN {"two-depth-coordinates"} ELSE {})
+  \cup (IF e.a = "Save" /\ cur # W0.D THEN {"saved-after-normalisation"} ELSE {})
   \cup (IF Len(cur.depths) > 2 THEN {"sediment-depth-coordinates"} ELSE {})
   \cup (IF \E a, b \in 1..Len(cur.depths) : a # b /\ cur.depths[a].dim = cur.depths[b].dim THEN {"two-coordinates-one-dimension"} ELSE {})
   \cup (IF e.a = "OceanFloor" /\ Ok(e) /\ \E k \in 1..Len(e.obs.ok.vars) : \E q \in 1..Len(e.obs.ok.vars[k].data) : e.obs.ok.vars[k].data[q] = MISSING
